@@ -127,6 +127,18 @@ def plain_structure(k, args):
 
 
 # bodies: written so that they run on secrets and on plain numbers
+_SHARED = {}
+
+
+def _shared(k):
+    """the same argument list object handed to two wrapped calls of one run"""
+    key = id(k)
+    if key not in _SHARED:
+        _SHARED.clear()
+        _SHARED[key] = ([k.v("x"), k.v("y"), k.v("z")], 3)
+    return _SHARED[key]
+
+
 def b_mul(k, x, y):
     return x * y + 1
 
@@ -152,6 +164,11 @@ def b_mixed_in(k, i, f, j):
     return i + j
 
 
+def b_twice(k, x, y):
+    s = x * y
+    return (s, s, {"again": s})
+
+
 def b_const(k, x):
     return 5
 
@@ -170,6 +187,8 @@ PROGRAMS = {
     "mixed_out": ([(b_mixed, lambda k: (1.5, k.v("x")))], ("x",)),
     "mixed_in": ([(b_mixed_in, lambda k: (k.v("x"), 2.25, k.v("y")))], ("x", "y")),
     "const": ([(b_const, lambda k: (k.v("x"),))], ("x",)),
+    "same_wire_twice": ([(b_twice, lambda k: (k.v("x"), k.v("y")))], ("x", "y")),
+    "shared_list": ([(b_list, lambda k: _shared(k)), (b_list, lambda k: _shared(k))], ("x", "y", "z")),
     "seq3": ([(b_mul, lambda k: (k.v("x"), k.v("y"))), (b_pair, lambda k: (k.v("y"), 4)), (b_mul, lambda k: (k.v("x"), k.v("x")))],
              ("x", "y")),
 }
